@@ -4,6 +4,7 @@ import (
 	"encoding/json"
 	"fmt"
 	"os"
+	"os/exec"
 	"path/filepath"
 	"regexp"
 	"sort"
@@ -165,6 +166,8 @@ func (w *worker) runPath(l *LemmaRun, entry *ssa.Function, prefix []Decision) {
 	in.uf = nil
 	in.userState = nil
 	in.symMulDiv, in.opaqueN = 0, 0
+	in.model, in.modelHits = nil, 0
+	in.lits, in.litHits = nil, 0
 	in.sol.Push()
 	status := "ok"
 	why := ""
@@ -367,8 +370,37 @@ func buildOverlay(verifRoot string, dirs []string, native bool) (map[string][]by
 	return ov, nil
 }
 
+var (
+	goEnvOnce sync.Once
+	goEnvVal  []string
+)
+
+// goEnv returns the environment for go list / go test: the toolchain /repo itself selects (go.mod
+// 'toolchain' line, resolved offline from the module cache), pinned with GOTOOLCHAIN=local.
 func goEnv() []string {
-	return append(os.Environ(), "GOPROXY=off", "GOSUMDB=off", "GOTOOLCHAIN=local", "GOFLAGS=-mod=readonly")
+	goEnvOnce.Do(func() {
+		env := os.Environ()
+		cmd := exec.Command("go", "env", "GOROOT")
+		cmd.Dir = repoRoot
+		cmd.Env = append(os.Environ(), "GOTOOLCHAIN=auto", "GOFLAGS=-mod=mod")
+		if out, err := cmd.Output(); err == nil {
+			root := strings.TrimSpace(string(out))
+			if root != "" {
+				env = append(env, "PATH="+filepath.Join(root, "bin")+":"+os.Getenv("PATH"), "GOROOT="+root)
+			}
+		}
+		goEnvVal = append(env, "GOPROXY=off", "GOTOOLCHAIN=local", "GOFLAGS=-mod=mod")
+	})
+	return goEnvVal
+}
+
+func goBin() string {
+	for _, e := range goEnv() {
+		if strings.HasPrefix(e, "GOROOT=") {
+			return filepath.Join(strings.TrimPrefix(e, "GOROOT="), "bin", "go")
+		}
+	}
+	return "go"
 }
 
 func loadPackages(verifRoot string, dirs []string) (*loaded, error) {
